@@ -345,7 +345,7 @@ struct Gen {
         bool usable = in_domain(codec, m, f.k, f.r, f.E, f.N1, f.pseed).inside && materialisable(f);
         if (codec == C_2D) usable = materialisable(f);
         if (!usable) { put(t + 40, "RELEASE"); for (auto &e : mine) { e.seq = seq++; evs.push_back(e); } return; }
-        if (cb != "none") put(t + 8, "SETCB");
+        if (cb != "none") put(rng.chance(0.2) ? t + 3 : t + 8, "SETCB");      // usually after the parameters, sometimes before
         int64_t last = t + 10;
         for (auto &a : arr) {
             int64_t ta = std::max(a.t, t + 10);
